@@ -14,6 +14,7 @@ NEUTRALS = [{'name': 'tie key through a local', 'file': 'partitura/io/importmusi
 
 # changes made by sub-agents that were given only the property text (see /verif/seeded/<id>/): each must stay reported
 SEEDED = [
+    {'name': 'seeded change C03-r6', 'seed': 'C03-r6', 'expect': '|VOCAB|'},
     {'name': 'seeded change C03-r4b', 'seed': 'C03-r4b', 'expect': '|MAXTIME|'},
     {'name': 'seeded change C03-r4a', 'seed': 'C03-r4a', 'expect': '|STACK-top|'},
     {'name': 'seeded change C03-r3', 'seed': 'C03-r3', 'expect': '|CARRY|'},
